@@ -19,7 +19,22 @@ def timed_cases(tier, rng):
     nper = 1500 if tier == "quick" else 15000
     for op, w, has_src in TIMED:
         for _ in range(nper):
-            pre = tgen.random_seq(rng, has_src, w, rng.below(9), prompt_pct=70)
+            if has_src and rng.chance(1, 4):
+                # an executor that runs ready tasks out of order: several events with their tasks left waiting, some of the
+                # tasks polled in a random order (later ones before earlier ones), the window passing in between, more events
+                k = 2 + rng.below(3)
+                pre = ["(src (n %d))" % (i + 1) for i in range(k)]
+                ts = list(range(k))
+                for i in range(len(ts) - 1, 0, -1):
+                    j = rng.below(i + 1)
+                    ts[i], ts[j] = ts[j], ts[i]
+                some = ts[:1 + rng.below(k)]
+                pre += ["(run %d)" % t for t in some]
+                if rng.chance(1, 2):
+                    pre += ["(adv %d)" % w] + ["(run %d)" % t for t in some[:1 + rng.below(len(some))]]
+                pre += ["(src (n %d))" % (k + 1 + i) for i in range(rng.below(3))]
+            else:
+                pre = tgen.random_seq(rng, has_src, w, rng.below(9), prompt_pct=70)
             pre = [l for l in pre if l not in ("unsub", "closed")]
             how = "unsub" if rng.chance(1, 2) else "drop"
             # afterwards: the input keeps emitting, the clock passes every window, every task is polled in some order, twice
@@ -115,7 +130,8 @@ def run(tier, seed, replay=None):
     else:
         cases = (timed_cases(tier, rng) + chain_cases(tier, rng) + op2_cases(tier, rng) + flatten_cases(tier, rng)
                  + ileave.cases("subject", tier, rng, "is", only=lambda setup, threads: any("unsub" in t for t in threads))
-                 + ileave2.cases(tier, rng, only_unsub=True))
+                 + ileave2.cases(tier, rng, only_unsub=True)
+                 + [("x1", "(case x1 unsub_race %d)" % (10 if tier == "quick" else 60), {"kind": "threads", "op": "subscribe_on", "how": "pool"})])
     correspond(rep, "C02", cases, "C02 (silence after unsubscribe: timed_ok / cut specifications / silent_after_unsub)")
     c = rep.coverage
     hist = {}
@@ -130,7 +146,8 @@ def run(tier, seed, replay=None):
                  "behind a Subject x scripts <= 3 x every cut position; (c) the 8 two-input combinators x script pairs <= 2 x all interleavings x every "
                  "cut position, both inputs emitting afterwards; (d) flattening operators x all stimulus sequences <= 4 x every cut position, hot "
                  "inner observables and the outer stream emitting afterwards; observation = everything delivered, judged by 'nothing after the "
-                 "unsubscribe returned' and compared with the model; (e) an unsubscribing thread against emitting threads: " + ileave.RULE)
+                 "unsubscribe returned' and compared with the model; a create() source emitting from a thread-pool task (subscribe_on) while its "
+                 "subscription is unsubscribed from another thread; (e) an unsubscribing thread against emitting threads: " + ileave.RULE)
     rep.assumptions = ["the lock-level interleavings of an unsubscribing thread with an emitting thread are explored on SubjectThreads only (schedules with a bounded number of context switches, and random ones)",
                        "share()/ref_count pipelines are decided under C11"]
     return rep.finish()
